@@ -1,5 +1,5 @@
 (* HsDebugFull.v — wsutil.DebugDialer (wsutil/dialer.go, after fixes F16 594aa5a, F17 4494cd4,
-   F22 6d46060) and wsutil.DebugUpgrader (wsutil/upgrader.go) transcribed statement by statement
+   F22 6d46060) and wsutil.DebugUpgrader (wsutil/upgrader.go, after fix F24 d4d7004) transcribed statement by statement
    over the handshake models: the wrapped conn whose Read goes through prefetchResponseReader
    (a bufio.Reader over io.TeeReader(conn, &resBuf) handed to http.ReadResponse, then
    io.MultiReader(bytes.NewReader(captured), conn)), whose Write goes through
@@ -9,7 +9,7 @@
    Definitions only; proofs in HsDebugFullProofs.v.  (HsDebug.v is the older abstract model.)
 
    What enters from outside (Section variables, never axioms):
-   * [parse_head]: http.ReadResponse followed by io.Copy(ioutil.Discard, resp.Body) on the captured
+   * [parse_head]: http.ReadResponse (DebugUpgrader: http.ReadRequest) followed by the body drain on the captured
      bytes: [Some n] = no error and  resBuf.Len() - br.Buffered() = n  (bytes of head and body the
      parser consumed), [None] = error.
    * the list of buffer sizes [hreads] of the Read calls that net/http's bufio.Reader performs on
@@ -177,11 +177,34 @@ Section DebugWrappers.
 
   Definition debug_upgrader_full (set_req set_resp : bool) (stext : N -> list byte) (cfg : ucfg)
              (B : N) (hreads : list N) (chunks : list (list byte)) (t : tail_kind) : fures :=
-    (* if onRequest != nil: http.ReadRequest(bufio.NewReader(io.TeeReader(conn, &buf))), body drained
-       when err == nil; onRequest(buf.Bytes()); r = io.MultiReader(&buf, conn) *)
+    (* if onRequest != nil: req, err := http.ReadRequest(bufio.NewReader(io.TeeReader(conn, &buf)))
+         err == nil: body drained; onRequest(buf.Bytes()); r = io.MultiReader(&buf, conn)
+         err != nil (after fix F24, d4d7004): r = io.MultiReader(bytes.NewReader(copy of buf.Bytes()),
+                     io.TeeReader(conn, &buf)); reportRequest = func() { onRequest(buf.Bytes()) },
+                     deferred last, so it runs when Upgrade has returned and before onResponse *)
     let '(captured, src1) := if set_req then tee_fetch hreads [] chunks else ([], chunks) in
+    let parsed := parse_head captured in
     let r_in := mkReader [] (if set_req then multi_reader captured src1 else chunks) t in
     (* if onResponse != nil: w = io.MultiWriter(conn, &buf); defer onResponse(buf.Bytes()) *)
+    let res := upgrader stext cfg B r_in in
+    let r_end := upgrader_reader cfg B r_in in
+    let '(out, resp_buf) :=
+      if set_resp then multi_writer (wcut (u_out res)) [] [] else (wcut (u_out res), []) in
+    let on_req := match parsed with
+                  | Some _ => captured
+                  | None => captured ++ conn_taken src1 (r_chunks r_end)   (* the tee kept recording *)
+                  end in
+    mkFu (if set_req then Some on_req else None)
+         (if set_resp then Some resp_buf else None)
+         res
+         (if set_req then conn_left src1 (r_chunks r_end) else r_chunks r_end)
+         out.
+
+  (* the same before fix F24: onRequest(buf.Bytes()) right after ReadRequest, whatever its answer *)
+  Definition debug_upgrader_full_old (set_req set_resp : bool) (stext : N -> list byte) (cfg : ucfg)
+             (B : N) (hreads : list N) (chunks : list (list byte)) (t : tail_kind) : fures :=
+    let '(captured, src1) := if set_req then tee_fetch hreads [] chunks else ([], chunks) in
+    let r_in := mkReader [] (if set_req then multi_reader captured src1 else chunks) t in
     let res := upgrader stext cfg B r_in in
     let r_end := upgrader_reader cfg B r_in in
     let '(out, resp_buf) :=
